@@ -50,6 +50,7 @@ Walk(prog, img) ==
                IN IF ~c.ok \/ c.opc # d.op THEN Fail(acc, "instruction chain malformed or wrong opcode")
                   ELSE IF d.k = "imm" /\ c.val # d.v THEN Fail(acc, "immediate operand differs")
                   ELSE [acc EXCEPT !.labs = Place(acc, acc.pos), !.pend = {}, !.pos = e, !.rows = Append(@, Row(acc.pos, e - acc.pos, c.val))]
+          [] OTHER -> Fail(acc, "directive not understood (a listing line that is not a label, DATA, OPR or instruction line)")
       W == FoldLeft(Step, [pos |-> 0, err |-> "", at |-> 0, labs |-> <<>>, pend |-> {}, rows |-> <<>>], prog)
   IN [W EXCEPT !.labs = Place(W, W.pos)]                    \* labels at the end of the program
 
